@@ -15,6 +15,7 @@ mod model;
 mod pool;
 mod probe;
 mod session;
+mod spinwatch;
 
 use vh_common::Args;
 
@@ -24,6 +25,7 @@ fn main() {
     }
     let args = Args::parse();
     vh_common::quiet_panics();
+    spinwatch::install();
     match args.prop.as_str() {
         "C19" => c19::run(&args),
         "C20" => c20::run(&args),
